@@ -1,6 +1,6 @@
 (* C01 - aspif writer and reader are inverses.  Statements only; proofs in C01/ProofsRoundtrip.v (which builds on
    C03/ProofsProg.v: the writer's text is the canonical rendering of the program). *)
-Require Import V.Lib.Base V.Lib.Calls V.C01.Read V.C01.Write V.C01.Wf V.C01.ProofsRoundtrip.
+Require Import V.Lib.Base V.Lib.Calls V.C01.Read V.C01.Write V.C01.Wf V.C01.ProofsRoundtrip V.C01.ProofsReread.
 Local Open Scope Z_scope.
 
 (* Every program inside the documented ranges (any number of steps and directives, every directive kind incl. theory,
@@ -21,6 +21,11 @@ Theorem c01_roundtrip_incremental : forall p, wf_trace p -> (forall c, In c p ->
 Proof. intros. rewrite c01_modes. apply c01_roundtrip; assumption. Qed.
 Print Assumptions c01_roundtrip_incremental.
 
+(* "for every aspif text the reader accepts, writing what was read and reading it again reproduces the identical call sequence" *)
+Theorem c01_reread : forall t cs, read_all t = (cs, Ok) -> read_all (write_prog cs) = (cs, Ok).
+Proof. exact c01_reread_lemma. Qed.
+Print Assumptions c01_reread.
+
 (* non-vacuity: a two-step program with every directive kind, boundary values, a weight-0 literal, an id >= 2^31 *)
 Definition sample : list call :=
   flatten true [[CRule 1 [1; 2147483647] [-2147483647; 3]; CWRule 0 [] (-2147483648) [(1, 0); (2, 2147483647)];
@@ -39,3 +44,8 @@ Example sample_norm_differs : norm sample <> sample.
 Proof. vm_compute. discriminate. Qed.
 Example sample_roundtrip : read_all (write_prog sample) = (norm sample, Ok).
 Proof. apply c01_roundtrip; apply sample_wf. Qed.
+Example reread_nonvacuous : exists t cs, read_all t = (cs, Ok) /\ t <> write_prog cs.
+Proof.
+  (* "asp 1 0 0\n1 0 1 +01 0 0\n0" : a laid-out text that is not the writer's own output *)
+  exists [97;115;112;32;49;32;48;32;48;10;49;32;48;32;49;32;43;48;49;32;48;32;48;10;48]. eexists. split; [vm_compute; reflexivity | vm_compute; discriminate].
+Qed.
